@@ -15,13 +15,13 @@ var propRules = map[string][]string{
 	"C02": {"C02.R1", "C02.R2", "C02.R3", "C02.R4", "C02.R5", "C02.R6", "C11.R4", "C10.R4", "C10.R5", "C12.R1", "C12.R4", "C01.R4", "C13.R4"},
 	"C03": {"C03.R1", "C01.R1", "C03.R7", "C14.R1", "C14.R3", "C04.R2", "C04.R4", "C09.R3"},
 	"C04": {"C04.R1", "C04.R2", "C04.R4", "C02.R1", "C02.R2", "C14.R3", "C14.R1", "C03.R1"},
-	"C14": {"C14.R1", "C14.R2", "C14.R3", "C14.R4", "C14.R5", "C15.R6", "C01.R2", "C01.R7", "C15.R5", "C01.R4", "C15.R7", "C14.R6", "C13.R6", "C10.R7", "C15.R9", "C16.R4"},
+	"C14": {"C14.R1", "C14.R2", "C14.R3", "C14.R4", "C14.R5", "C15.R6", "C01.R2", "C01.R7", "C15.R5", "C01.R4", "C15.R7", "C14.R6", "C13.R6", "C10.R7", "C15.R9", "C16.R4", "C14.R7"},
 	"C20": {"C20.R1", "C20.R2", "C20.R3", "C20.R4", "C20.R5", "C20.R6", "C01.R1", "C15.R1", "C02.R6", "C10.R2", "C06.R2", "C10.R6", "C20.R7", "C10.R9", "C20.R8", "C10.R10", "C06.R6", "C10.R11", "C05.R5", "C10.R12", "C06.R7", "C20.R9", "C20.R10", "C20.R11"},
-	"C17": {"C17.R1", "C17.R2", "C17.R3", "C17.R4", "C17.R5", "C17.R6", "C17.R7", "C06.R4", "C17.R8", "C17.R9", "C17.R10", "C06.R7", "C17.R11", "C17.R12", "C18.R7", "C16.R9"},
+	"C17": {"C17.R1", "C17.R2", "C17.R3", "C17.R4", "C17.R5", "C17.R6", "C17.R7", "C06.R4", "C17.R8", "C17.R9", "C17.R10", "C06.R7", "C17.R11", "C17.R12", "C18.R7", "C16.R9", "C17.R13"},
 	"C16": {"C16.R1", "C16.R2", "C16.R3", "C16.R4", "C16.R5", "C01.R6", "C15.R2", "C16.R6", "C16.R7", "C16.R8", "C16.R9"},
 	"C18": {"C18.R1", "C18.R2", "C18.R3", "C18.R4", "C17.R4", "C17.R7", "C18.R5", "C18.R6", "C18.R7", "C16.R9"},
-	"C19": {"C19.R1", "C19.R2", "C19.R3", "C19.R4", "C19.R5", "C19.R6", "C02.R6", "C09.R3", "C17.R8", "C19.R7", "C10.R7", "C19.R8", "C19.R9", "C05.R5", "C19.R10", "C06.R7", "C19.R11"},
-	"C15": {"C15.R1", "C15.R2", "C15.R3", "C15.R4", "C15.R5", "C15.R6", "C14.R2", "C16.R4", "C15.R7", "C14.R6", "C15.R8", "C16.R8", "C01.R13", "C15.R9"},
+	"C19": {"C19.R1", "C19.R2", "C19.R3", "C19.R4", "C19.R5", "C19.R6", "C02.R6", "C09.R3", "C17.R8", "C19.R7", "C10.R7", "C19.R8", "C19.R9", "C05.R5", "C19.R10", "C06.R7", "C19.R11", "C17.R13"},
+	"C15": {"C15.R1", "C15.R2", "C15.R3", "C15.R4", "C15.R5", "C15.R6", "C14.R2", "C16.R4", "C15.R7", "C14.R6", "C15.R8", "C16.R8", "C01.R13", "C15.R9", "C14.R7"},
 	"C07": {"C07.R1", "C07.R2", "C07.R3", "C07.R4", "C02.R1", "C05.R3", "C06.R2", "C20.R10"},
 	"C08": {"C08.R1", "C08.R2", "C08.R3", "C08.R4", "C10.R2", "C10.R8"},
 	"C09": {"C09.R1", "C09.R2", "C09.R3", "C09.R4", "C01.R8"},
@@ -29,7 +29,7 @@ var propRules = map[string][]string{
 	"C12": {"C12.R1", "C12.R2", "C12.R3", "C12.R4", "C12.R5", "C12.R6"},
 	"C13": {"C13.R1", "C13.R2", "C13.R3", "C13.R4", "C15.R5", "C15.R2", "C15.R7", "C13.R5", "C13.R6"},
 	"C11": {"C11.R1", "C11.R2", "C11.R4", "C06.R5", "C01.R4", "C10.R11", "C05.R1"},
-	"C06": {"C06.R1", "C06.R2", "C06.R3", "C06.R4", "C06.R5", "C12.R2", "C10.R5", "C17.R2", "C10.R7", "C06.R6", "C06.R7", "C12.R6", "C17.R6"},
+	"C06": {"C06.R1", "C06.R2", "C06.R3", "C06.R4", "C06.R5", "C12.R2", "C10.R5", "C17.R2", "C10.R7", "C06.R6", "C06.R7", "C12.R6", "C17.R6", "C17.R13"},
 }
 
 const (
